@@ -192,6 +192,10 @@ def run(ctx):
         if scoped(msg.ids, D33):
             ctx.count('compiling_encoder_cases')
             check_case(ctx, encc, msg, 'shape', name, label='compiling-encoder')
+    for bi, (name, msg) in enumerate(cases.big_cases(ctx.rng)):
+        if ctx.mine(bi):
+            check_case(ctx, enc, msg, 'big', name)
+            ctx.count('big_cases')
     # same descriptor list, different tables (master version / local tables): one encoder object serves both
     pairs = cases.version_sensitive_pairs(6)
     lpairs = cases.local_sensitive_pairs()
